@@ -1,5 +1,6 @@
 import CasbinVerif.Spec.Persist
 import CasbinVerif.Properties.C04
+import CasbinVerif.Proofs.C10Reload
 /-
   C10 — What is persisted is what is enforced.
 
@@ -17,32 +18,53 @@ def Inv (e : Enf) : Prop :=
     applied in memory: it still holds exactly the listed rules -/
 theorem autosave_step (e : Enf) (op : MOp) (h : Inv e) (hop : e.opWF10 op = true) :
     ∃ e' res, e.applyM op = some (e', res) ∧ Inv e' := by
-  sorry
+  obtain ⟨a, b, c, d, f, g, k⟩ := h
+  obtain ⟨e', res, h1, h2⟩ := c10_step e op ⟨a, b, c, d, f, g, k⟩ hop
+  exact ⟨e', res, h1, h2.wf, h2.synced, h2.quiet, h2.noPrio, h2.disj, h2.names, h2.autoSave⟩
 
 theorem autosave_hist (e : Enf) (ops : List MOp) (h : Inv e)
     (hops : ∀ (pre : List MOp) (op : MOp) (e' : Enf), pre ++ [op] <+: ops → e.runM pre = some e' → e'.opWF10 op = true) :
     ∃ e', e.runM ops = some e' ∧ Inv e' := by
-  sorry
+  induction ops generalizing e with
+  | nil => exact ⟨e, rfl, h⟩
+  | cons op ops ih =>
+    have hop : e.opWF10 op = true := hops [] op e (by simp) rfl
+    obtain ⟨e1, res, h1, hi1⟩ := autosave_step e op h hop
+    have hops1 : ∀ (pre : List MOp) (op' : MOp) (e' : Enf), pre ++ [op'] <+: ops → e1.runM pre = some e' →
+        e'.opWF10 op' = true := by
+      intro pre op' e' hpre hrun
+      refine hops (op :: pre) op' e' ?_ ?_
+      · simpa using hpre
+      · simp only [Enf.runM, h1]; exact hrun
+    obtain ⟨e2, h2, hi2⟩ := ih e1 hi1 hops1
+    exact ⟨e2, by simp only [Enf.runM, h1, h2], hi2⟩
 
 /-- with auto-save off the adapter is untouched by every management call -/
 theorem autosave_off_untouched (e : Enf) (op : MOp) (h : e.autoSave = false) (e' : Enf) (res : Enf.MRes)
     (hr : e.applyM op = some (e', res)) : e'.adapter = e.adapter ∧ e'.autoSave = false := by
-  sorry
+  have hoff : e.shouldPersist = false := by simp [Enf.shouldPersist, h]
+  obtain ⟨h1, h2⟩ := adSame_applyM e op hoff e' res hr
+  exact ⟨h1, h2.trans h⟩
 
 /-- SavePolicy hands the adapter exactly the listed rules, per type in stored order -/
 theorem save_synced (e : Enf) (hwf : e.WFState) (hd : e.disjointTypes) (hq : e.adapterQuiet) (a : AdapterSt) (ha : e.adapter = some a) :
     e.savePolicy.2 = true ∧ e.savePolicy.1.Synced ∧ e.savePolicy.1.memory = e.memory := by
-  sorry
+  exact save_synced' e hwf hd hq a ha
 
 /-- an enforcer (re)loaded from a synced adapter lists the same rules in the same order … -/
 theorem reload_same_rules (e : Enf) (h : Inv e) (hb : e.autoBuild = true) (a : AdapterSt) (ha : e.adapter = some a) :
     e.loadPolicy.2 = true ∧ (∀ pt, (e.loadPolicy.1.p.lookup pt).map (·.policy) = (e.p.lookup pt).map (·.policy)) ∧
     (∀ gt, (e.loadPolicy.1.g.lookup gt).map (·.policy) = (e.g.lookup gt).map (·.policy)) := by
-  sorry
+  obtain ⟨a1, b, c, d, f, g, k⟩ := h
+  obtain ⟨h1, h2, h3, _, _⟩ := reload_all ⟨a1, b, c, d, f, g, k⟩ hb a ha
+  exact ⟨h1, h2, h3⟩
 
 /-- … and its role links mirror them, so (C04.same_rules_same_decision) it makes the same decisions -/
 theorem reload_mirror (e : Enf) (h : Inv e) (hm : e.LinksMirror) (hb : e.autoBuild = true) (a : AdapterSt) (ha : e.adapter = some a) :
     e.loadPolicy.1.WFState ∧ e.loadPolicy.1.LinksMirror := by
-  sorry
+  have _ := hm
+  obtain ⟨a1, b, c, d, f, g, k⟩ := h
+  obtain ⟨_, _, _, h4, h5⟩ := reload_all ⟨a1, b, c, d, f, g, k⟩ hb a ha
+  exact ⟨h4, h5⟩
 
 end Casbin.C10
